@@ -446,6 +446,7 @@ func checkC43(c *Ctx) string {
 	}
 	sort.Strings(excN)
 	checkRecordHeaderCacheUnderWriteLock(c, "C43.5 K7 the lazily filled header cache is written under the write lock")
+	checkSharedSlotStoresPropagate(c, "C43.7 K4 values stored into a concurrent closure's slots are made concurrent")
 	checkClosureSetConcurrentCoversThis(c, "C43.6 K5 a closure made concurrent makes its this concurrent")
 	return fmt.Sprintf("Lock discipline of shared values in package core (%d guarded accesses in %d functions and escaping literals). Guarded: SuObject.list/named/defval/readonly/version/clock/sorting by the object's rwMayLock "+
 		"(reads need RLock or Lock, writes — assignment, element store, append/copy/sort target, mutating method of the map, found by effect — need Lock); every field of suRec by the record's Lock (= its object's); element accesses of Shared.values by Shared's MayLock. "+
